@@ -239,6 +239,55 @@ def run_prx(ns, xs):
     return " ".join(outs) if outs else "()"
 
 
+class _FakeServerSocket:
+    def __init__(self, conn):
+        self.conn = conn
+
+    def bind(self, addr):
+        pass
+
+    def listen(self, n=0):
+        pass
+
+    def accept(self):
+        return (self.conn, ('127.0.0.1', 0))
+
+    def close(self):
+        pass
+
+
+class _FakeSocketModule:
+    def __init__(self, conn):
+        self.conn = conn
+
+    def socket(self, *a, **kw):
+        return _FakeServerSocket(self.conn)
+
+
+def run_srv(path, xs):
+    """the whole of repl_server.py (main loop included) with the `socket` module replaced: one connection whose incoming
+    bytes and read/write splitting are given; returns what the server wrote and how the script ended"""
+    wire = ev_bytes(field(xs, "wire")[0])
+    rsched = [int(v) for v in field(xs, "rsched")]
+    wsched = [int(v) for v in field(xs, "wsched")]
+    conn = FakeSocket(data=wire, rsched=rsched, wsched=wsched)
+    src = open(path, encoding="utf-8").read().replace("__PORT__", "0").replace("__MODULE__", "c25_no_such_module")
+    saved_mod, saved_out = sys.modules.get("socket"), sys.stdout
+    sys.modules["socket"] = _FakeSocketModule(conn)
+    end = "normal"
+    try:
+        exec(compile(src, path, "exec"), {"__name__": "repl_server_under_test"})
+    except BaseException as e:      # noqa: the exception class is the outcome (SystemExit included)
+        end = type(e).__name__
+    finally:
+        sys.stdout = saved_out
+        if saved_mod is not None:
+            sys.modules["socket"] = saved_mod
+        else:
+            sys.modules.pop("socket", None)
+    return "(written %s) (end %s)" % (pb(conn.written), end)
+
+
 def main():
     path, mode = sys.argv[1], sys.argv[2]
     ns = load_classes(path)
@@ -261,6 +310,8 @@ def main():
                 res, chain = run_ptx(ns, xs[1:], inp)
             elif kind == "prx":
                 res = run_prx(ns, xs[1:])
+            elif kind == "srv":
+                res = run_srv(path, xs[1:])
             else:
                 res = "bad-input(kind)"
         except Exception as e:      # noqa
